@@ -403,6 +403,13 @@ func (e *Env) selectField(b tv, name string) tv {
 				evalFail("field access through %T", cur)
 			}
 			f := structOf(owner).Field(idx)
+			if isNamed(types.Unalias(f.Type()), "sync", "Map") {
+				spec := e.eng.cs.SyncMaps[owner.Obj().Pkg().Path()+"."+owner.Obj().Name()+"."+f.Name()]
+				if spec == nil {
+					evalFail("no syncmap directive for %s.%s", owner.Obj().Name(), f.Name())
+				}
+				return tv{e.eng.syncMapV(spec, embAddr(owner, idx, ot)), nil}
+			}
 			if isPlainStruct(f.Type()) {
 				// keep as pointer to the embedded struct
 				cur, curT = embAddr(owner, idx, ot), types.NewPointer(f.Type())
@@ -1030,6 +1037,33 @@ func (e *Env) call(n *ast.CallExpr) tv {
 	}
 	evalFail("unknown function %s in contract", name)
 	return tv{}
+}
+
+// applyLemma instantiates a declared lemma with the given argument expressions.
+func (e *Env) applyLemma(call *ast.CallExpr) *Term {
+	name := funName(call.Fun)
+	var lem *Lemma
+	for _, l := range e.eng.cs.Lemmas {
+		if l.Name == name {
+			lem = l
+		}
+	}
+	if lem == nil {
+		evalFail("unknown lemma %s", name)
+	}
+	if len(call.Args) != len(lem.Params) {
+		evalFail("lemma %s expects %d arguments", name, len(lem.Params))
+	}
+	c := e.child()
+	if p := e.eng.typesPkg(lem.Pkg); p != nil {
+		c.pkg = p
+	}
+	c.vars = map[string]tv{}
+	for i, p := range lem.Params {
+		c.vars[p] = e.eval(call.Args[i])
+	}
+	e.eng.lemmasUsed[name] = true
+	return c.evalBool(lem.Body)
 }
 
 func (e *Env) asIface(v tv) (IfaceV, bool) {
